@@ -145,6 +145,10 @@ impl Engine for C09Engine {
     fn prop(&self) -> &'static str {
         "C09"
     }
+    fn hang_is_violation(&self) -> bool {
+        // C09: "never ... fails to terminate"
+        true
+    }
     fn fuzz(&self) -> Option<FuzzSpec> {
         Some(FuzzSpec { target: "fz_misc", max_len: 109, target_prefix: vec![0], engine_prefix: vec![] })
     }
@@ -331,8 +335,16 @@ impl Engine for C20Engine {
         let codes: Vec<u8> = weights.iter().enumerate().flat_map(|(i, w)| std::iter::repeat(i as u8).take(*w as usize)).chain(std::iter::repeat(0xffu8).take(3)).collect();
         let op = (0u8..4, proptest::sample::select(codes), any::<u8>(), prop_oneof![6 => 0u8..128, 2 => 128u8..224, 1 => 224u8..248], any::<u8>()).prop_map(|(a, c, x, y, z)| [a, c, x, y, z]);
         let header = (0u8..5, any::<u8>(), prop_oneof![3 => 0u8..128, 1 => 128u8..224], any::<u8>(), 0u8..3, any::<u8>(), any::<u8>()).prop_map(|(m, ctor, c1, c2, pl, p1, p2)| [m, ctor, c1, c2, pl, 0, p1, p2]);
-        (any::<u8>(), proptest::collection::vec(header, 4), proptest::collection::vec(op, 0..=60))
+        let cross = proptest::collection::vec((0u8..10, 0u8..4, 0u8..4, any::<u8>()), 1..50).prop_map(|ops| {
+            let mut v = vec![0x40u8];
+            for (c, i, j, x) in ops {
+                v.extend_from_slice(&[c, i, j, x]);
+            }
+            v
+        });
+        let main = (any::<u8>(), proptest::collection::vec(header, 4), proptest::collection::vec(op, 0..=60))
             .prop_map(|(b0, hs, ops)| {
+                let b0 = b0 & !0x40;
                 let k = 2 + (b0 % 3) as usize;
                 let mut v = vec![b0];
                 for h in hs.iter().take(k) {
@@ -342,10 +354,16 @@ impl Engine for C20Engine {
                     v.extend_from_slice(&o);
                 }
                 v
-            })
-            .boxed()
+            });
+        prop_oneof![5 => main, 1 => cross].boxed()
     }
     fn run(&self, bytes: &[u8]) -> CaseOut {
+        if bytes.first().map_or(false, |b| b & 0x40 != 0) {
+            let (viol, cross_ops) = run_cross_arena(bytes);
+            let mut stats = vec![0u32; NST + 4];
+            stats[St::Ops as usize] = cross_ops;
+            return CaseOut { viol, nontrivial: cross_ops >= 2, hash: fnv(bytes), stats, ..Default::default() };
+        }
         let case = decode_multi(bytes);
         let seed = fnv(bytes);
         let mut out = CaseOut { hash: seed, ..Default::default() };
@@ -488,6 +506,10 @@ impl Engine for C20Engine {
         out
     }
     fn describe(&self, bytes: &[u8]) -> Value {
+        if bytes.first().map_or(false, |b| b & 0x40 != 0) {
+            return json!({"family": "collections of two arenas operated on together (vectors 0,1 live in arena A, vectors 2,3 in arena B)",
+                "ops": bytes.get(1..).unwrap_or(&[]).chunks(4).map(|c| format!("{}(vec {}, vec {}, {})", CROSS_OPS[(c[0] % 10) as usize], c.get(1).cloned().unwrap_or(0) % 4, c.get(2).cloned().unwrap_or(0) % 4, c.get(3).cloned().unwrap_or(0))).collect::<Vec<_>>()});
+        }
         let case = decode_multi(bytes);
         json!({
             "arenas": (0..case.k).map(|j| { let mut h = vec![0u8; 8]; h.copy_from_slice(&case.headers[j]); describe_case(&h, false) }).collect::<Vec<_>>(),
@@ -507,7 +529,7 @@ impl Engine for C20Engine {
         }
     }
     fn rule(&self) -> String {
-        "cases are proptest-generated streams of (arena, operation) pairs over 2-4 arenas with independent constructors and MIN_ALIGN; every arena's sub-history is first run alone, then all are run together (interleaved in stream order on one thread, or one thread per arena behind a barrier) and each arena's normalised trace (outcome, chunk index, in-chunk offset, chunk_capacity, accounting, allocator traffic) must be identical; the 48 bytes of the shared static sentinel are compared before/after every step. non-trivial = an interleaving with >= 2 switches between arenas of which one involved a chunk-less arena, or a threaded case in which >= 2 threads allocated; distinct = distinct case bytes".into()
+        "cases are proptest-generated streams of (arena, operation) pairs over 2-4 arenas with independent constructors and MIN_ALIGN; every arena's sub-history is first run alone, then all are run together (interleaved in stream order on one thread, or one thread per arena behind a barrier) and each arena's normalised trace (outcome, chunk index, in-chunk offset, chunk_capacity, accounting, allocator traffic) must be identical; the 48 bytes of the shared static sentinel are compared before/after every step. A second family (one case in six) keeps two vectors in each of two arenas and runs push/extend/append/split_off/clone/drain/reserve/shrink on them, including operations that take vectors of both arenas (append): every vector keeps reporting its own arena from bump(), an arena whose vectors are not written by an operation keeps its allocated_bytes and chunk_capacity, contents follow a std model. non-trivial = an interleaving with >= 2 switches between arenas of which one involved a chunk-less arena, or a threaded case in which >= 2 threads allocated, or >= 2 cross-arena operations; distinct = distinct case bytes".into()
     }
     fn sweep(&self, tier: Tier, idx: u32, _nworkers: u32) -> Option<SweepOut> {
         if idx != 0 {
@@ -611,7 +633,13 @@ pub fn run_tsan(cases_hex: &[String]) -> (Vec<TsanReport>, usize, Option<String>
                 let _ = child.wait();
                 break None;
             }
-            Ok(None) => std::thread::sleep(std::time::Duration::from_millis(50)),
+            Ok(None) => {
+                // heartbeat for the parent's stall detector
+                if t0.elapsed().as_millis() % 5000 < 60 {
+                    sweep_note(&json!({"tsan_part": "running", "elapsed_s": t0.elapsed().as_secs()}));
+                }
+                std::thread::sleep(std::time::Duration::from_millis(50))
+            }
             Err(_) => break None,
         }
     };
@@ -711,4 +739,153 @@ pub fn tsan_part(tier: Tier) -> SweepOut {
     }
     out.samples.push(json!({"tsan_case_hex": cases.first(), "meaning": "byte0: 2-4 threads, byte1: MIN_ALIGN 1/8/16, byte2 bit0: hand the arena over to the next thread at the end, then per-thread capacity bytes, then (thread, op, arg) triples: alloc_layout / alloc / reset / zero-sized request / drop+recreate / accounting"}));
     out
+}
+
+
+// ---------------------------------------------------------------------------------------------
+// C20, collections family: vectors living in two different arenas operated on together
+
+pub const CROSS_OPS: [&str; 10] = ["push", "extend_from_slice", "append", "split_off_into", "clone_into", "drain", "reserve", "shrink_to_fit", "truncate", "insert"];
+
+pub fn run_cross_arena(bytes: &[u8]) -> (Vec<String>, u32) {
+    use bumpalo::collections::Vec as BVec;
+    use bumpalo::Bump;
+    let _ = k_meta();
+    ledger::begin_case(fnv(bytes));
+    let mut viol: Vec<String> = vec![];
+    let mut cross = 0u32;
+    let (a, b) = {
+        let _g = ledger::enter_arena(1);
+        (Bump::new(), Bump::new())
+    };
+    {
+        let arenas = [&a, &b];
+        let owner = [0usize, 0, 1, 1];
+        let mut s: Vec<BVec<u32>> = {
+            let _g = ledger::enter_arena(1);
+            vec![BVec::new_in(&a), BVec::new_in(&a), BVec::new_in(&b), BVec::new_in(&b)]
+        };
+        let mut t: Vec<Vec<u32>> = vec![vec![], vec![], vec![], vec![]];
+        let obs = |x: &Bump| (x.allocated_bytes(), x.chunk_capacity());
+        for ch in bytes.get(1..).unwrap_or(&[]).chunks(4) {
+            let g = |i: usize| ch.get(i).cloned().unwrap_or(0);
+            let (code, i, j, x) = (g(0) % 10, (g(1) % 4) as usize, (g(2) % 4) as usize, g(3));
+            let before = [obs(&a), obs(&b)];
+            // which arenas may legitimately change: the owners of the vectors that are written
+            let mut may_change = [false, false];
+            may_change[owner[i]] = true;
+            let len = t[i].len();
+            let r = {
+                let _g = ledger::enter_arena(1);
+                std::panic::catch_unwind(std::panic::AssertUnwindSafe(|| match code {
+                    0 => s[i].push(x as u32),
+                    1 => {
+                        let src: Vec<u32> = {
+                            let _u = ledger::enter_user();
+                            (0..(x % 40) as u32).collect()
+                        };
+                        s[i].extend_from_slice(&src)
+                    }
+                    2 => {
+                        if i != j {
+                            let (lo, hi) = s.split_at_mut(i.max(j));
+                            if i < j {
+                                lo[i].append(&mut hi[0])
+                            } else {
+                                hi[0].append(&mut lo[j])
+                            }
+                        }
+                    }
+                    3 => {
+                        if i != j {
+                            let tail = s[i].split_off((x as usize * (len + 1)) >> 8);
+                            // the tail lives in i's arena; keep it in i's partner slot only if that slot has the same owner
+                            if owner[i] == owner[j] {
+                                s[j] = tail;
+                            } else {
+                                drop(tail);
+                            }
+                        }
+                    }
+                    4 => {
+                        if i != j && owner[i] == owner[j] {
+                            let c = s[i].clone();
+                            s[j] = c;
+                        }
+                    }
+                    5 => {
+                        let lo = (x as usize * (len + 1)) >> 8;
+                        s[i].drain(lo..);
+                    }
+                    6 => s[i].reserve(x as usize),
+                    7 => s[i].shrink_to_fit(),
+                    8 => s[i].truncate((x as usize * (len + 1)) >> 8),
+                    _ => s[i].insert((x as usize * (len + 1)) >> 8, 7),
+                }))
+            };
+            if r.is_err() {
+                viol.push(format!("{} panicked", CROSS_OPS[code as usize]));
+                break;
+            }
+            // model
+            match code {
+                0 => t[i].push(x as u32),
+                1 => t[i].extend(0..(x % 40) as u32),
+                2 => {
+                    if i != j {
+                        let moved = std::mem::take(&mut t[j]);
+                        t[i].extend(moved);
+                        if owner[i] != owner[j] {
+                            cross += 1;
+                        }
+                    }
+                }
+                3 => {
+                    if i != j {
+                        let tail = t[i].split_off((x as usize * (len + 1)) >> 8);
+                        if owner[i] == owner[j] {
+                            t[j] = tail;
+                        }
+                    }
+                }
+                4 => {
+                    if i != j && owner[i] == owner[j] {
+                        t[j] = t[i].clone();
+                    }
+                }
+                5 => {
+                    t[i].truncate((x as usize * (len + 1)) >> 8);
+                }
+                6 | 7 => {}
+                8 => t[i].truncate((x as usize * (len + 1)) >> 8),
+                _ => t[i].insert((x as usize * (len + 1)) >> 8, 7),
+            }
+            let after = [obs(&a), obs(&b)];
+            for z in 0..2 {
+                if !may_change[z] && before[z] != after[z] {
+                    viol.push(format!("{}(vec {i} of arena {}, vec {j} of arena {}): arena {} was not written to, yet its (allocated_bytes, chunk_capacity) went from {:?} to {:?}", CROSS_OPS[code as usize], owner[i], owner[j], z, before[z], after[z]));
+                }
+            }
+            for k in 0..4 {
+                if s[k].as_slice() != t[k].as_slice() {
+                    viol.push(format!("after {}: vector {k} holds {:?}, expected {:?}", CROSS_OPS[code as usize], &s[k].as_slice()[..s[k].len().min(10)], &t[k][..t[k].len().min(10)]));
+                }
+                if !std::ptr::eq(s[k].bump(), arenas[owner[k]]) {
+                    viol.push(format!("after {}: vector {k}, created in arena {}, now reports the other arena from bump()", CROSS_OPS[code as usize], owner[k]));
+                }
+            }
+            if !viol.is_empty() {
+                break;
+            }
+        }
+        let _g = ledger::enter_arena(1);
+        drop(s);
+    }
+    {
+        let _g = ledger::enter_arena(1);
+        drop(a);
+        drop(b);
+    }
+    ledger::end_case();
+    (viol, cross)
 }
